@@ -51,7 +51,8 @@ class FnContract:
     alias_ok: tuple = ()
     comp_membership: bool = False  # list comprehensions also get `y in result => y == body(i) for some passing i` (extra quantified fact)
     merge_branches: bool = True  # False: keep the paths of every `if` apart (more obligations, simpler terms)
-    dict_key_positions: bool = False  # every key k of a dict that is iterated / measured sits at a position of its key list: keys[keypos(k)] == k (Skolem function; extra quantified fact that slows some proofs down, hence opt-in)
+    dict_key_positions: bool = True  # every key k of a dict that is iterated / measured sits at a position of its key list: keys[keypos(k)] == k (Skolem function).  An extra quantified fact over seq.nth that derails some proofs: switch it off per contract when no clause goes from `k in d` to a position of the iteration
+    sorted_axioms: bool = False  # sorted(x) / xs.sort(): same elements, same length, ordered (w.r.t. key= / reverse=) as assumed quantified facts
     seq_positions: bool = False  # `x in <list>` / set(<list>) also yield a POSITION witness (L[p] == x) and "every position is a member" (extra quantified facts)
 
     @property
